@@ -15,11 +15,11 @@
 // LineRow type, and compared with an executable copy of the assumed `ensures`.  Not counted as proof.
 use super::*;
 
-struct Lines {
-    lines: Vec<LineRow>,
+struct Lines<'a> {
+    lines: &'a [LineRow],
 }
 
-impl Lines {
+impl Lines<'_> {
     fn bsearch_prev_pc(&self, pc: u64) -> usize {
         /*@@FRAGMENT:BSP_PC*/
         pos
@@ -33,21 +33,17 @@ impl Lines {
     }
 }
 
-fn any_sorted_lines() -> Lines {
-    let n: usize = kani::any();
-    kani::assume(n <= 4);
+/// four rows with symbolic, sorted 3-bit addresses; callers take the first n (n concrete)
+fn any_sorted_rows() -> [LineRow; 4] {
     let a: [u8; 4] = kani::any();
-    let mut lines = Vec::with_capacity(4);
-    let mut k = 0;
-    while k < 4 {
-        if k < n {
-            kani::assume(a[k] < 8);
-            if k > 0 { kani::assume(a[k - 1] <= a[k]); }
-            lines.push(LineRow { address: a[k] as u64, file_index: 0, line: k as u64, column: 0, flags: 0 });
-        }
-        k += 1;
-    }
-    Lines { lines }
+    kani::assume(a[0] < 8 && a[1] < 8 && a[2] < 8 && a[3] < 8);
+    kani::assume(a[0] <= a[1] && a[1] <= a[2] && a[2] <= a[3]);
+    [
+        LineRow { address: a[0] as u64, file_index: 0, line: 0, column: 0, flags: 0 },
+        LineRow { address: a[1] as u64, file_index: 0, line: 1, column: 0, flags: 0 },
+        LineRow { address: a[2] as u64, file_index: 0, line: 2, column: 0, flags: 0 },
+        LineRow { address: a[3] as u64, file_index: 0, line: 3, column: 0, flags: 0 },
+    ]
 }
 
 fn adr(l: &Lines, k: usize) -> u64 { l.lines[k].address }
@@ -79,43 +75,58 @@ fn check_prev(l: &Lines, pc: u64, pos: usize) {
 }
 
 #[kani::proof]
-#[kani::unwind(6)]
+#[kani::unwind(8)]
 fn c04_outline_bsearch_prev_pc() {
-    let l = any_sorted_lines();
+    let rows = any_sorted_rows();
     let pc: u64 = kani::any();
     kani::assume(pc < 9);
-    let pos = l.bsearch_prev_pc(pc);
-    check_prev(&l, pc, pos);
+    let mut n = 0;
+    while n <= 4 {
+        let l = Lines { lines: &rows[..n] };
+        let pos = l.bsearch_prev_pc(pc);
+        check_prev(&l, pc, pos);
+        n += 1;
+    }
 }
 
 #[kani::proof]
-#[kani::unwind(6)]
+#[kani::unwind(8)]
 fn c04_outline_bsearch_prev_eb() {
-    let l = any_sorted_lines();
+    let rows = any_sorted_rows();
     let pc: u64 = kani::any();
     kani::assume(pc < 9);
-    let pos = l.bsearch_prev_eb(pc);
-    check_prev(&l, pc, pos);
+    let mut n = 0;
+    while n <= 4 {
+        let l = Lines { lines: &rows[..n] };
+        let pos = l.bsearch_prev_eb(pc);
+        check_prev(&l, pc, pos);
+        n += 1;
+    }
 }
 
 #[kani::proof]
-#[kani::unwind(6)]
+#[kani::unwind(8)]
 fn c04_outline_bsearch_exact() {
-    let l = any_sorted_lines();
+    let rows = any_sorted_rows();
     let pc: u64 = kani::any();
     kani::assume(pc < 9);
-    let n = l.lines.len();
-    match l.bsearch_exact(pc) {
-        Ok(p) => assert!(p < n && adr(&l, p) == pc, "C04.outline.bsearch.B1 Ok(p): row p has the key"),
-        Err(p) => {
-            assert!(p <= n, "C04.outline.bsearch.B2 Err(p): insertion point within bounds");
-            let mut k = 0;
-            while k < 4 {
-                if k < n && k < p { assert!(adr(&l, k) < pc, "C04.outline.bsearch.B3 rows before the insertion point are below the key"); }
-                if k < n && k >= p { assert!(adr(&l, k) > pc, "C04.outline.bsearch.B4 rows from the insertion point on are above the key"); }
-                k += 1;
+    let mut nn = 0;
+    while nn <= 4 {
+        let l = Lines { lines: &rows[..nn] };
+        let n = nn;
+        match l.bsearch_exact(pc) {
+            Ok(p) => assert!(p < n && adr(&l, p) == pc, "C04.outline.bsearch.B1 Ok(p): row p has the key"),
+            Err(p) => {
+                assert!(p <= n, "C04.outline.bsearch.B2 Err(p): insertion point within bounds");
+                let mut k = 0;
+                while k < 4 {
+                    if k < n && k < p { assert!(adr(&l, k) < pc, "C04.outline.bsearch.B3 rows before the insertion point are below the key"); }
+                    if k < n && k >= p { assert!(adr(&l, k) > pc, "C04.outline.bsearch.B4 rows from the insertion point on are above the key"); }
+                    k += 1;
+                }
             }
         }
+        nn += 1;
     }
 }
 
